@@ -132,13 +132,13 @@ func checkC06(cx *Ctx, r *Report) {
 		if !ok {
 			continue
 		}
-		if s.Kind == "WithValueNotEmptyCheck" && strings.HasSuffix(p, "authRequestForm.AuthRequest") {
+		if s.Kind == "WithValueNotEmptyCheck" && strings.HasSuffix(fx.T(p), "<provider.AuthRequestForm>.AuthRequest") {
 			reqNonEmpty = s
 		}
-		if s.Kind == "WithConditionalValueNotEmpty" && strings.HasSuffix(p, "authRequestForm.Sig") {
+		if s.Kind == "WithConditionalValueNotEmpty" && strings.HasSuffix(fx.T(p), "<provider.AuthRequestForm>.Sig") {
 			if cf := s.Fn("cond"); cf != nil {
 				tp, fp, ok := fx.boolPaths(cf, 64)
-				good := ok && len(tp) == 1 && len(fp) == 1 && len(tp[0].Atoms) == 1 && tp[0].Atoms[0].Op == "EMPTY" && tp[0].Atoms[0].Neg && strings.HasSuffix(tp[0].Atoms[0].A, "authRequestForm.SigAlg")
+				good := ok && len(tp) == 1 && len(fp) == 1 && len(tp[0].Atoms) == 1 && tp[0].Atoms[0].Op == "EMPTY" && tp[0].Atoms[0].Neg && strings.HasSuffix(tp[0].Atoms[0].TA, "<provider.AuthRequestForm>.SigAlg")
 				if good {
 					sigAlgSig = s
 				}
@@ -222,12 +222,12 @@ func checkC06(cx *Ctx, r *Report) {
 				ok   func(p *APath) bool
 			}
 			conds := []cond{
-				{"ID non-empty", func(p *APath) bool { return p.has("EMPTY", "authNRequest.Id", true) }},
-				{"Version non-empty", func(p *APath) bool { return p.has("EMPTY", "authNRequest.Version", true) }},
-				{"Issuer non-empty", func(p *APath) bool { return p.has("EMPTY", "authNRequest.Issuer.Text", true) }},
+				{"ID non-empty", func(p *APath) bool { return p.has("EMPTY", "<samlp.AuthnRequestType>.Id", true) }},
+				{"Version non-empty", func(p *APath) bool { return p.has("EMPTY", "<samlp.AuthnRequestType>.Version", true) }},
+				{"Issuer non-empty", func(p *APath) bool { return p.has("EMPTY", "<samlp.AuthnRequestType>.Issuer.Text", true) }},
 				{"Issuer equals the service provider's entity ID", func(p *APath) bool {
 					for _, a := range p.Atoms {
-						if a.Op == "EQ" && !a.Neg && (strings.HasSuffix(a.A, "authNRequest.Issuer.Text") && strings.HasSuffix(a.B, "ServiceProvider).GetEntityID") || strings.HasSuffix(a.B, "authNRequest.Issuer.Text") && strings.HasSuffix(a.A, "ServiceProvider).GetEntityID")) {
+						if a.Op == "EQ" && !a.Neg && (strings.HasSuffix(a.TA, "<samlp.AuthnRequestType>.Issuer.Text") && strings.HasSuffix(a.B, "ServiceProvider).GetEntityID") || strings.HasSuffix(a.TB, "<samlp.AuthnRequestType>.Issuer.Text") && strings.HasSuffix(a.A, "ServiceProvider).GetEntityID")) {
 							return true
 						}
 					}
@@ -242,15 +242,15 @@ func checkC06(cx *Ctx, r *Report) {
 					return false
 				}},
 				{"Conditions window verified when a bound is present", func(p *APath) bool {
-					if p.has("NIL", "authNRequest.Conditions", false) {
+					if p.has("NIL", "<samlp.AuthnRequestType>.Conditions", false) {
 						return true
 					}
-					if p.has("EMPTY", "authNRequest.Conditions.NotOnOrAfter", false) && p.has("EMPTY", "authNRequest.Conditions.NotBefore", false) {
+					if p.has("EMPTY", "<samlp.AuthnRequestType>.Conditions.NotOnOrAfter", false) && p.has("EMPTY", "<samlp.AuthnRequestType>.Conditions.NotBefore", false) {
 						return true
 					}
 					for _, a := range p.Atoms {
 						if a.Op == "NIL" && !a.Neg {
-							if c, isCall := nilTestedCall(a.Cond); isCall && cx.isTimeCheckCall(c, "authNRequest.Conditions.NotBefore", "authNRequest.Conditions.NotOnOrAfter") {
+							if c, isCall := nilTestedCall(a.Cond); isCall && cx.isTimeCheckCall(c, "<samlp.AuthnRequestType>.Conditions.NotBefore", "<samlp.AuthnRequestType>.Conditions.NotOnOrAfter") {
 								return true
 							}
 						}
@@ -261,12 +261,28 @@ func checkC06(cx *Ctx, r *Report) {
 			nAccept := 0
 			for i := range aps {
 				p := &aps[i]
-				isNil, _ := fx.errNilness(p, fx.retVal(p, 0))
-				if !isNil {
+				rv := fx.retVal(p, 0)
+				isNil, nonNil := fx.errNilness(p, rv)
+				// a verdict handed through (`return verifyX(...)`) may be nil: the path is an accepting candidate,
+				// and the condition that call verifies counts as established
+				tail := ""
+				if rc, isCall := rv.(*ssa.Call); isCall && !isNil && !nonNil {
+					if f := calleeOf(rc); f != nil && w.FuncKey(f) == "provider.verifyRequestDestinationOfAuthRequest" {
+						tail = "Destination verified"
+					} else if cx.isTimeCheckCall(rc, "<samlp.AuthnRequestType>.Conditions.NotBefore", "<samlp.AuthnRequestType>.Conditions.NotOnOrAfter") {
+						tail = "Conditions window verified when a bound is present"
+					} else {
+						tail = "?"
+					}
+				}
+				if !isNil && tail == "" {
 					continue
 				}
 				nAccept++
 				for _, c := range conds {
+					if c.name == tail {
+						continue
+					}
 					if !c.ok(p) {
 						r.Fail("R-GUARD", "checkRequestRequiredContent:"+c.name, w.InstrPos(p.Ret), "the content check can accept a request without having established: "+c.name+" (path: "+atomsString(p.Atoms)+")")
 					}
@@ -289,9 +305,10 @@ func checkC06(cx *Ctx, r *Report) {
 	}
 	// --- destination ---------------------------------------------------------------------
 	cx.checkDestination(r, "provider.verifyRequestDestinationOfAuthRequest", "SingleSignOnService")
+	cx.checkDestinationContent(r, kSSO, "sso", "provider.verifyRequestDestinationOfAuthRequest")
 	lsm, msites := vf.CallArgSources(matchFnKey(w, "provider.verifyRequestDestinationOfAuthRequest"), 0)
 	if len(msites) > 0 {
-		r.checkSources("R-VFG", "sso:destination:metadata", w.InstrPos(msites[0]), lsm, []string{"alloc:provider.(*IdentityProviderConfig).getMetadata/*"}, []string{"alloc:provider.(*IdentityProviderConfig).getMetadata/*"}, false)
+		r.checkSources("R-VFG", "sso:destination:metadata", w.InstrPos(msites[0]), lsm, []string{"alloc:{md.IDPSSODescriptorType}*"}, []string{"alloc:{md.IDPSSODescriptorType}*"}, false)
 		// built for this request's context: GetMetadata's ctx argument is r.Context()
 		lc, cs := vf.CallArgSources(matchFnKey(w, "provider.(*IdentityProvider).GetMetadata"), 1)
 		if len(cs) > 0 {
@@ -342,7 +359,7 @@ func (cx *Ctx) getterSuffix(v ssa.Value, suffix string) bool {
 		return false
 	}
 	p, ok := cx.Fx.getterResult(tg[0])
-	return ok && strings.HasSuffix(p, suffix)
+	return ok && strings.HasSuffix(cx.Fx.T(p), suffix)
 }
 
 // checkErrPropagation (R-ERR, local form): in fn (which returns an error as its last result), every
@@ -558,7 +575,7 @@ func (cx *Ctx) checkDestination(r *Report, fnKey, listField string) {
 		n++
 		good := false
 		for _, a := range p.Atoms {
-			if a.Op == "EMPTY" && !a.Neg && strings.HasSuffix(a.A, "/request.Destination") {
+			if a.Op == "EMPTY" && !a.Neg && strings.HasPrefix(a.TA, "<samlp.") && strings.HasSuffix(a.TA, ">.Destination") {
 				good = true
 			}
 			if a.Op == "EQ" && !a.Neg {
@@ -567,11 +584,11 @@ func (cx *Ctx) checkDestination(r *Report, fnKey, listField string) {
 					continue
 				}
 				for _, pair := range [][2]ssa.Value{{b.X, b.Y}, {b.Y, b.X}} {
-					if !strings.HasSuffix(fx.path(pair[0]), "/request.Destination") {
+					if tp := fx.T(fx.path(pair[0])); !strings.HasPrefix(tp, "<samlp.") || !strings.HasSuffix(tp, ">.Destination") {
 						continue
 					}
 					ll := lvf.Labels(pair[1]).leaves()
-					if len(ll) == 1 && matchLabel("param:*/metadata."+listField+"[].Location", ll[0]) {
+					if len(ll) == 1 && matchLabel("param:*/#0."+listField+"[].Location", ll[0]) {
 						good = true
 					}
 				}
@@ -582,6 +599,40 @@ func (cx *Ctx) checkDestination(r *Report, fnKey, listField string) {
 		}
 	}
 	r.Check(bad == "" && n > 0, "R-GUARD", fnKey, w.FnPos(fn), fmt.Sprintf("%d accepting paths: Destination empty, or equal to the Location of an element of metadata.%s", n, listField), bad)
+}
+
+// checkDestinationContent: in the scope of handler hk, the locations the Destination is compared with are built
+// from the endpoint configuration and the issuer in this request's context only (not read back from provider-wide
+// state such as a descriptor cache).
+func (cx *Ctx) checkDestinationContent(r *Report, hk, short, fnKey string) {
+	w, fx := cx.W, cx.Fx
+	fn := w.Func(fnKey)
+	vf := cx.vflow(hk)
+	if fn == nil || vf == nil {
+		return
+	}
+	n := 0
+	for _, b := range fn.Blocks {
+		for _, in := range b.Instrs {
+			bo, ok := in.(*ssa.BinOp)
+			if !ok || bo.Op != token.EQL {
+				continue
+			}
+			for _, pair := range [][2]ssa.Value{{bo.X, bo.Y}, {bo.Y, bo.X}} {
+				if tp := fx.T(fx.path(pair[0])); !strings.HasPrefix(tp, "<samlp.") || !strings.HasSuffix(tp, ">.Destination") {
+					continue
+				}
+				n++
+				ls := vf.Deep(vf.Labels(pair[1]))
+				r.checkSources("R-VFG", short+":destination:locations", w.InstrPos(bo), ls,
+					[]string{"const:*", "ext:iface:context.Context.Value#0", "param:*/#0.conf.Endpoints.*", "param:*/#0.identityProvider.conf.Endpoints.*"},
+					[]string{"ext:iface:context.Context.Value#0"}, false)
+			}
+		}
+	}
+	if n == 0 {
+		r.Fail("R-VFG", short+":destination:locations", w.FnPos(fn), "the destination check compares with nothing")
+	}
 }
 
 // checkTimeWindow: the closure of checkIfRequestTimeIsStillValid accepts only if, for each bound that is
